@@ -590,6 +590,11 @@ func (m *mappedFile) load32(off uint32) uint32 {
 	if int64(off) >= int64(len(m.mapping.Data)) {
 		return 0
 	}
+	if int64(off)+4 > int64(len(m.mapping.Data)) {
+		// All four bytes must lie inside the data (the word would
+		// otherwise be read partly from beyond its end).
+		return 0
+	}
 	return (*atomic.Uint32)(unsafe.Pointer(&m.mapping.Data[off])).Load()
 }
 
